@@ -122,13 +122,22 @@ def gen_events(rng, ft, TR, mo, kind, quantum):
         on = np.append(on, snap([fmin, fmin + TR])); du = np.append(du, [0.0, 0.0])
     elif kind == "ongrid":
         on = snap(fmin + TR * rng.integers(0, max(1, len(ft) - 1), m) + (TR / 16) * rng.integers(0, 16, m))
+    elif kind == "late":            # everything inside the last two scans (and the bin after the last scan)
+        on = snap(rng.uniform(fmax - 2 * TR, fmax + TR / 2, m)); on[0] = fmax
+        du = snap(rng.choice([0.0, 0.0, q, TR / 2, TR], m))
+    elif kind == "early":           # everything inside the first two scans
+        on = snap(rng.uniform(fmin, fmin + 2 * TR, m)); on[0] = fmin
+        du = snap(rng.choice([0.0, 0.0, q, TR / 2, TR], m))
+    elif kind == "ends":            # both ends of the run
+        on = snap(np.concatenate((rng.uniform(fmin, fmin + TR, m), rng.uniform(fmax - TR, fmax + TR / 2, m))))
+        du = snap(rng.choice([0.0, 0.0, TR / 2], 2 * m))
     va = rng.integers(-3, 6, len(on)).astype(float)
     va[va == 0] = 2.0
     p = rng.permutation(len(on))
     return on[p], du[p], va[p]
 
 
-KINDS = ["plain", "coincident", "prescan", "pastend", "zerodur", "ongrid"]
+KINDS = ["plain", "coincident", "prescan", "pastend", "zerodur", "ongrid", "late", "early", "ends"]
 
 
 def exact_grids(ck):
@@ -291,6 +300,83 @@ def sec_regressor(ck, hm):
     ck.section("regressor", cases=len(terms), fir_kernels=len(kt))
 
 
+# ------------------------------------------------------------------ section: _convolve_regressors vs Model.convolve_regressors
+def sec_convolve(ck, hm, dm, ep):
+    """Paradigm objects through design_matrix._convolve_regressors (the path make_dmtx uses: oversampling 1 for FIR, 16 otherwise;
+    called directly because make_dmtx's _full_rank perturbs rank-deficient designs) against Model.convolve_regressors:
+    events listed in arbitrary order with unequal amplitudes, several conditions, events near both ends of the run,
+    FIR delays small / just past the pre-scan window / about the run length / beyond it, min_onset 0 .. -24."""
+    rng = ck.rng("convolve")
+    terms, meta = [], []
+    combos = []
+    for TR in (1.0, 2.0, 0.5):
+        for n in ((5, 9) if not ck.thorough() else (3, 5, 9, 17)):
+            for mo in (0.0, -TR, -4 * TR, -24.0):
+                combos.append((TR, n, mo))
+    reps = ck.n(2, 6)
+    for (TR, n, mo) in combos:
+        ft = TR * np.arange(n)
+        g = grid_facts(TR, n, 0.0, mo, 1)
+        if not (g["exact_floats"] and g["commensurate"]):
+            continue
+        for rep in range(reps):
+            nc = int(rng.integers(1, 4))
+            ids = ["c%d" % i for i in range(nc)]
+            kinds = [KINDS[int(k)] for k in rng.integers(0, len(KINDS), nc)]
+            con, on, du, va = [], [], [], []
+            for cid, kind in zip(ids, kinds):
+                o, d, v = gen_events(rng, ft, TR, mo, kind, TR / 4)
+                con += [cid] * len(o); on += o.tolist(); du += d.tolist(); va += v.tolist()
+            pm = rng.permutation(len(on))           # listing order: arbitrary, conditions interleaved
+            con = np.array(con)[pm]; on = np.array(on)[pm]; du = np.array(du)[pm]; va = np.array(va)[pm]
+            block = rep % 2 == 1
+            noamp = rep % 3 == 2
+            if not block:
+                du = np.zeros_like(du)
+            if noamp:
+                va = np.ones_like(va)
+            par = (ep.BlockParadigm(con, on, du, None if noamp else va) if block else ep.EventRelatedParadigm(con, on, None if noamp else va))
+            # the last repetition on small grids goes through the oversampling-16 (gamma kernel) path
+            fir = not (rep == reps - 1 and mo >= (-4 * TR if ck.thorough() else -TR) and n <= (9 if ck.thorough() else 5))
+            model = "fir" if fir else ["canonical", "spm_time"][(n + int(-mo / TR)) % 2]
+            delays = fir_delay_set(n, TR, mo) if fir else [0]
+            inp = {"frametimes": ft.tolist(), "hrf_model": model, "fir_delays": delays, "min_onset": mo, "paradigm_type": "block" if block else "event",
+                   "con_id": con.tolist(), "onsets": on.tolist(), "durations": du.tolist(), "amplitudes": None if noamp else va.tolist()}
+            try:
+                X, names = guarded(ck, "_convolve_regressors", inp, dm._convolve_regressors, par, model, ft, delays, mo)
+            except ImplRaised:
+                continue
+            X = np.asarray(X, float).reshape(n, -1)
+            ck.count(("conv", TR, n, mo, model, tuple(delays), con.tolist(), on.tolist(), du.tolist(), va.tolist()),
+                     nontrivial=bool(np.any(X != 0)),
+                     bucket="convolve:%s:%s:min_onset%s" % (model, "block" if block else "event", "0" if mo == 0 else ("-24" if mo == -24 else "short")))
+            osamp = 1 if fir else 16
+            if fir:
+                hsT = "(fir_kernels %s %s)" % (clist([cnat(d) for d in delays]), cnat(1))
+                eps = "0"
+            else:
+                tr = float(ft.max()) / (n - 1)
+                hsT = clist([cql(np.asarray(h, float).tolist()) for h in hm._hrf_kernel(model, tr, 16)])
+                eps = "(1 # 10000000000)"
+            parT = clist(["(%s, (%s, %s, %s))" % (cstr(c), cq(float(o)), cq(float(d)), cq(float(v))) for c, o, d, v in zip(con, on, du, va)])
+            cols = clist([cql(X[:, j].tolist()) for j in range(X.shape[1])])
+            terms.append("list_eqb (qlist_close %s) (convolve_regressors %s %s %s %s %s %s %s) %s" % (
+                eps, cql(ft.tolist()), cnat(osamp), cq(mo), hsT, cbool(fir), clist([cstr(c) for c in sorted(set(con.tolist()))]), parT, cols))
+            meta.append(dict(inp, impl_columns=X.T.tolist(), names=[str(x) for x in names], tolerance="exact" if fir else "1e-10"))
+            if fir and len(ck.cov["samples"]) < 5 and rep == 0 and n == 5:
+                ck.sample(dict(section="convolve", **{k: inp[k] for k in ("frametimes", "fir_delays", "min_onset", "con_id", "onsets", "amplitudes")}))
+    if ck.build.ok:
+        res = ck.coq_bools(HDR, terms, shard=12, name="conv")
+        ck.cov["traces_validated_against_impl"] += len(res)
+        for ok, m in zip(res, meta):
+            if not ok:
+                ck.fail("model-vs-impl/convolve_regressors/%s" % ("fir" if m["hrf_model"] == "fir" else "gamma"),
+                        "Model.convolve_regressors and design_matrix._convolve_regressors disagree (%s, hrf_model=%s, %d events of %d conditions "
+                        "in listing order %s)" % (m["tolerance"], m["hrf_model"], len(m["onsets"]), len(set(m["con_id"])), m["con_id"]), m)
+                break
+    ck.section("convolve", cases=len(terms))
+
+
 # ------------------------------------------------------------------ section: property oracles on compute_regressor
 def col0(hm, ev, model, ft, osamp, delays, mo):
     with warnings.catch_warnings():
@@ -326,6 +412,13 @@ def witness_incommensurate(ck, hm):
                      "onsets": [onset], "k": 1, "regressor": a[:, 0].tolist(), "regressor_delayed_onsets": b[:, 0].tolist()})
 
 
+def fir_delay_set(n, TR, mo):
+    """FIR delays: small ones, one just past the pre-scan window (-min_onset/TR scans), one near the run length, one past
+    the run plus the pre-scan window (an all-zero column)."""
+    pre = int(np.ceil(max(-mo, 0.0) / TR))
+    return sorted(set([0, 1, 3, min(pre + 2, n + pre + 1), max(n - 1, 0), n + pre + 1]))
+
+
 def sec_oracles(ck, hm):
     rng = ck.rng("oracle")
     for fn in (replay_two_event, witness_incommensurate):
@@ -339,6 +432,8 @@ def sec_oracles(ck, hm):
         for n in ((9, 17) if not ck.thorough() else (5, 9, 17, 33, 40)):
             grids.append((TR, n, 0.0, -24.0))
     grids += [(2.0, 9, 0.0, -8.0), (1.0, 12, 0.0, -24.0), (3.0, 11, 0.0, -24.0)]
+    # short or no pre-scan window (min_onset is a public parameter of make_dmtx / compute_regressor)
+    grids += [(1.0, 9, 0.0, 0.0), (2.0, 9, 0.0, -2.0), (0.5, 17, 0.0, 0.0), (3.0, 12, 0.0, -3.0), (1.0, 6, 0.0, -1.0)]
     # grids on which the oversampled grid is not aligned with the scans (see known findings)
     grids += [(2.5, 17, 0.0, -24.0), (2.0, 9, 1.0, -24.0), (2.0, 5, 0.0, -7.0), (0.72, 15, 0.0, -24.0)]
     reps = ck.n(6, 24)
@@ -350,7 +445,7 @@ def sec_oracles(ck, hm):
             for osamp in osamps:
                 g = grid_facts(TR, n, f0, mo, osamp)
                 tag = "commensurate-grid" if g["commensurate"] else "incommensurate-grid"
-                delays = [0, 1, 2] if model == "fir" else None
+                delays = fir_delay_set(n, TR, mo) if model == "fir" else None
                 for rep in range(reps):
                     kind = KINDS[(rep + n + len(model)) % len(KINDS)]
                     quantum = TR / 64 if g["exact_floats"] else TR / 50
@@ -384,6 +479,22 @@ def sec_oracles(ck, hm):
                     stats["scale"] += 1
                     if np.max(np.abs(c3 + 3 * full)) > 1e-10 * scale * 3:
                         ck.fail("superposition/amplitude-scaling", "regressor of amplitudes -3a differs from -3 x regressor of a (%s)" % model, base)
+                    # --- FIR: the column of delay d is the column of delay 0 moved down by d rows, zero-filled
+                    #     (no event before the first scan, scans on the oversampled grid)
+                    if model == "fir" and g["commensurate"] and (on >= ft[0]).all():
+                        j0 = delays.index(0)
+                        for j, dly in enumerate(delays):
+                            exp = np.zeros(n)
+                            if dly < n:
+                                exp[dly:] = full[:n - dly, j0]
+                            stats["fir_row_shift"] = stats.get("fir_row_shift", 0) + 1
+                            if np.max(np.abs(full[:, j] - exp)) > 1e-12 * scale:
+                                r = int(np.argmax(np.abs(full[:, j] - exp)))
+                                ck.fail("fir/delay-is-row-shift/%s" % ("wraps-to-start" if r < dly else "other"),
+                                        "FIR column of delay %d (oversampling %d, min_onset %g) is not the delay-0 column moved down by %d rows: "
+                                        "row %d is %g, expected %g" % (dly, osamp, mo, dly, r, full[r, j], exp[r]),
+                                        dict(base, delay=dly, column=full[:, j].tolist(), delay0_column=full[:, j0].tolist()))
+                                break
                     # --- causality: zero at every scan before the first onset
                     first = float(np.min(on))
                     pre = ft < first
@@ -685,11 +796,14 @@ def sec_dmtx(ck, hm, dm, ep):
         start = [0.0, TR / 2, -2 * TR, 0.3, 4 * TR, -1.7][nd % 6]
         ft = start + TR * np.arange(n)
         m = 3 * len(ids)
-        con = np.array([ids[i % len(ids)] for i in range(m)])
-        on = np.sort(rng.uniform(ft[0], ft[0] + (ft[-1] - ft[0]) * 0.8, m))
+        # events listed in ARBITRARY (not chronological) order, unequal signed amplitudes, some near both ends of the run
+        con = np.array([ids[i % len(ids)] for i in range(m)])[rng.permutation(m)]
+        on = rng.uniform(ft[0], ft[-1], m)
+        on[0], on[1] = ft[-1] - 0.25 * TR, ft[0] + 0.25 * TR
         block = rng.random() < .5
-        par = (ep.BlockParadigm(con, on, rng.uniform(0.5, 3 * TR, m), rng.uniform(.5, 2, m)) if block
-               else ep.EventRelatedParadigm(con, on, rng.uniform(.5, 2, m)))
+        amp = rng.uniform(.5, 2, m) * rng.choice([-1.0, 1.0, 1.0], m)
+        durs = rng.uniform(0.5, 3 * TR, m)
+        par = (ep.BlockParadigm(con, on, durs, amp) if block else ep.EventRelatedParadigm(con, on, amp))
         add = rng.standard_normal((n, nadd)) if nadd else None
         addn = ["mot_%d" % i for i in range(nadd)] if named else None
         delays = [0, 2, 3]
@@ -763,6 +877,17 @@ def sec_dmtx(ck, hm, dm, ep):
             if not np.allclose(X[:, j * nb:(j + 1) * nb], c, rtol=0, atol=1e-10):
                 ck.fail("dmtx/condition-block", "columns %d..%d are not the regressors of condition %r" % (j * nb, (j + 1) * nb, cid), rep)
                 break
+        # the listing order of the events is irrelevant (theorem main_regressor_independent_of_listing_order)
+        pm = rng.permutation(m) if nd % 2 else np.argsort(on, kind="stable")
+        par2 = (ep.BlockParadigm(con[pm], on[pm], durs[pm], amp[pm]) if block else ep.EventRelatedParadigm(con[pm], on[pm], amp[pm]))
+        with warnings.catch_warnings():
+            warnings.simplefilter("ignore")
+            X2 = np.asarray(dm.make_dmtx(ft, par2, model, dmodel, hfcut, order, delays, add, addn).matrix)
+        if X2.shape != X.shape or np.max(np.abs(X2 - X)) > 1e-9 * max(1.0, np.max(np.abs(X))):
+            ck.fail("dmtx/listing-order", "make_dmtx gives a different design matrix when the same events are listed in another order "
+                    "(max abs diff %g)" % (np.max(np.abs(X2 - X)) if X2.shape == X.shape else float("nan")),
+                    dict(rep, con_id=con.tolist(), onsets=on.tolist(), amplitudes=amp.tolist(), durations=durs.tolist() if block else None,
+                         relisted_in_order=pm.tolist()))
         terms.append("list_eqb String.eqb (dmtx_names show_nat %s %s %s %s %s) %s" % (
             clist([cstr(s) for s in sorted(ids)]), COQ_MODEL[model], clist([cnat(x) for x in delays]),
             clist([cstr(s) for s in (addn if addn is not None else ["reg%d" % k for k in range(nadd)])]),
@@ -875,6 +1000,7 @@ def run(ck):
     from nipy.modalities.fmri import experimental_paradigm as ep
     import traceback
     for name, fn, args in (("oracles", sec_oracles, (ck, hm)), ("hr", sec_hr, (ck, hm)), ("regressor", sec_regressor, (ck, hm)),
+                           ("convolve", sec_convolve, (ck, hm, dm, ep)),
                            ("dmtx", sec_dmtx, (ck, hm, dm, ep)), ("paradigm", sec_paradigm, (ck, ep))):
         t0 = time.time()
         try:
